@@ -255,7 +255,7 @@ def run(ctx, rep):
     g = ctx.peg
     r = rep.rule("R-C08-trivia", "between any two consecutive IEC tokens of a production white space/comments are accepted: every adjacent pair of "
                                  "input-consuming grammar elements is separated by `_`, or the first always ends / the second always starts with it "
-                                 "(pairs inside the rules that spell one lexical token are exempt)", floor=140, floor_what="adjacent element pairs")
+                                 "(pairs inside the rules that spell one lexical token are exempt)", floor=100, floor_what="adjacent element pairs")
     t = Trivia(g)
     # `_` itself must be (whitespace / comment)* and nothing else may consume trivia tokens
     und = g.rules.get("_")
